@@ -770,7 +770,7 @@ def loop_of(fn, block_id):
     return None
 
 
-def eval_walk(fn, start_block, atom_env=None, tree_env=None, limit=400, max_paths=64):
+def eval_walk(fn, start_block, atom_env=None, tree_env=None, limit=400, max_paths=64, stop=()):
     """Walk from start_block deciding every conditional leaf by atom_env (atom -> bool, through
     cond_atoms) or by eval_tree over tree_env; leaves that neither decides (logging levels, ...) are
     explored both ways.  Returns a list of (events visited, end) with end in
@@ -787,6 +787,9 @@ def eval_walk(fn, start_block, atom_env=None, tree_env=None, limit=400, max_path
             budget[0] -= 1
             if b in seen:
                 results.append((out, "loop"))
+                return
+            if b in stop and seen:
+                results.append((out, "stop"))
                 return
             seen = seen | {b}
             blk = fn.blocks[b]
@@ -885,3 +888,46 @@ def on_every_cycle(fn, loop, block_id):
         if v not in color and dfs(v):
             return False
     return True
+
+
+def edge_obligations(fn, arm, discharge):
+    """Obligations created on CFG edges must be discharged before the function returns or the same
+    obligation is created again.  arm(blk, label) -> token or None ; discharge(ev) -> token or None.
+    Returns a list of (token, where) that can reach a normal exit / re-arming undischarged."""
+    problems = []
+
+    def tr(st, ev, pos):
+        t = discharge(ev)
+        if t is not None and t in st:
+            st = st - {t}
+        if ev.get("k") == "return" and st:
+            for tok in st:
+                problems.append((tok, "return at %s" % loc_of(ev)))
+        if ev.get("k") == "throw":
+            return frozenset()
+        return st
+
+    def ed(st, blk, label, cond):
+        t = arm(blk, label)
+        if t is not None:
+            if t in st:
+                problems.append((t, "re-armed in block %d" % blk.id))
+            return st | {t}
+        return st
+    before, bin_, bout = forward(fn, frozenset(), tr, ed, lambda a, b: a | b, eh=True)
+    for p, lab in fn.preds().get(fn.exit, []):
+        blk = fn.blocks[p]
+        if p not in bout or blk.term.get("noreturn"):
+            continue
+        if any(e.get("k") in ("return", "throw") for e in blk.events):
+            continue
+        st = ed(bout[p], blk, lab, blk.cond) if False else bout[p]
+        for tok in st:
+            problems.append((tok, "fall-off from block %d" % p))
+    out = []
+    seen = set()
+    for tok, where in problems:
+        if (tok, where) not in seen:
+            seen.add((tok, where))
+            out.append((tok, where))
+    return out
